@@ -21,7 +21,8 @@ def check(ctx):
     ctx.run(W.rule_two_entry_chains, "C09.W", rr)
     ctx.run(W.rule_snapshot_before_mutation, "C09.W1", rr)
     ctx.run(R.rule_run_uses_returned_pair, "C09.W2", rr)
-    ctx.run(rule_pruning_preserves_paths, "C09.W3")
+    from .prunerules import rule_pruning_evaluated as _rpe
+    ctx.run(_rpe, "C09.W3", rr)
     ctx.run(E.rule_enqueue_after_success, "C09.W4", er)
     ctx.run(E.rule_catch_all, "C09.W4", er)
     ctx.run(S.rule_stale_check_sees_stored_nodes, "C09.W0", rr)
